@@ -686,7 +686,9 @@ func (in *Exec) doRecover(caller *frame) value {
 // spawn runs a `go` statement: the goroutine body runs to completion at the spawn point (one legal schedule).
 func (in *Exec) spawn(caller *frame, pos token.Pos, fn value, args []value) {
 	in.goroutine++
-	defer func() { in.goroutine-- }()
+	in.gidNext++
+	in.gids = append(in.gids, in.gidNext)
+	defer func() { in.goroutine--; in.gids = in.gids[:len(in.gids)-1] }()
 	func() {
 		defer func() {
 			if r := recover(); r != nil {
